@@ -89,8 +89,12 @@ L['C08'] = dict(modules=['Schc.Properties.C08'], level='proof', technique='Lean 
               T('C08_ipv6_fields', 'full', 'IPv6 parser returns exactly the RFC field list'), T('C08_ipv4_fields', 'full', 'IPv4 …'), T('C08_udp_fields', 'full', 'UDP …'),
               T('C08_coap_message', 'full', 'parse of ANY RFC 7252-encoded message (token 0..15 bytes as announced, any options, optional marker + payload) = fixed fields, token, per-option fields in wire order, marker; exact header length'),
               T('C08_coap_option', 'full', 'one option: slices cut = RFC fields, all delta/length classes'),
-              T('C08_coap_positions', 'full', 'k-th field with a given id carries position k, for any accepted input')],
-    level_text='Fixed field boundaries of all five protocols and the chaining tables are machine-checked against tables written from the RFCs, on tables re-extracted from the source on every run (a moved boundary breaks a `decide`). The CoAP option walk is proved against RFC 7252 §3.1 written as an encoder (Spec.wireOption): parse of the encoding of any option list gives the RFC field list, positions and header length. PARTIAL for SCTP: per-chunk-type fields, parameters, 32-bit padding and the agreement of predictive and explicit stacks are compared on every run with field lists produced by independent RFC 9260 encoders (every chunk type with optional parts); no parse∘encode theorem is claimed for the SCTP walks (C07 proves they tile, C14 that they terminate).')
+              T('C08_coap_positions', 'full', 'k-th field with a given id carries position k, for any accepted input'),
+              T('C08_sctp_packet', 'full', 'parse of ANY RFC 9260-encoded packet (common header + any chunks of any types) = the RFC field list in wire order; whole packet is header'),
+              T('C08_sctp_chunk', 'full', 'one chunk of any type: header, per-type value fields (DATA, INIT, INIT ACK, SACK, parameter lists, SHUTDOWN, value-less, COOKIE ECHO, opaque), chunk padding'),
+              T('C08_sctp_parameters', 'full', 'parameter TLV list with 4-byte padding'),
+              T('C08_sctp_value_tiles', 'full', 'the RFC fields of a chunk value spell its encoding (spec self-consistency)')],
+    level_text='Fixed field boundaries of all five protocols and the chaining tables are machine-checked against tables written from the RFCs, on tables re-extracted from the source on every run (a moved boundary breaks a `decide`). The CoAP option walk is proved against RFC 7252 §3.1 written as an encoder (Spec.wireOption) and the SCTP chunk / parameter / SACK walks against RFC 9260 §3 written as an encoder (Spec.SctpChunk.wire): parse of the encoding of any option list / any chunk list gives the RFC field list, positions and header length. The encoders pad every parameter inside the chunk value (RFC 9260 also allows the last parameter padding to count as chunk padding; that variant is exercised by correspondence only). Agreement of predictive and explicit stacks rests on the chaining tables (C08_chaining) and the parse correspondence stream.')
 L['C14'] = dict(modules=['Schc.Properties.C14'], level='proof', technique='Lean 4 totality theorems with fuel (progress lemmas for every walk) + generated registry tables',
     theorems=[T('C14_total', 'full', 'every parser configuration, every bit string: a descriptor or ParserError — no hang, no foreign exception'),
               T('C14_header', 'full', 'each header parser, with/without prediction, CoAP in both option modes'),
